@@ -364,6 +364,13 @@ func (fr *Frame) callFunc(b *ssa.BasicBlock, f *ssa.Function, c *ssa.CallCommon,
 			return v
 		}
 	}
+	if fr.pure && ct != nil && ct.Def != nil && ct.Def.Fn != nil && hasBody && len(eng.loopInfo(f).list) > 0 {
+		// a function with loops called inside a specification: its contract
+		// defines the result (the contract is verified against the body separately)
+		vc.usedContracts[ct.FullKey()] = true
+		v := vc.evalClauseVal(ct.Def, args, st, fr)
+		return &v
+	}
 	if fr.pure || vc.inlineAll {
 		if hasBody && !fr.onStack(f) && (inModule(f) || eng.inlineExternal(f)) {
 			return inline()
